@@ -31,4 +31,14 @@ TEXTS = {
         "note": "Trusted: Lean kernel; the hand-written engine model's faithfulness is validated (not proved) by the correspondence run against the real Engine on every generated case; seahash injectivity on the strings of a case; the regex crate on /re/ rules (external parameter); rustc and third-party crates.",
         "technique": 'Lean 4 theorems (set equality, permutation invariance) + correspondence check',
     },
+    "C06": {
+        "level": 'Lean 4 proofs that (1) the address-keyed regex cache is transparent for every operation sequence and every allocator (invariant: each compiled entry belongs to the filter live at its address; preserved by every operation; answers equal the freshly compiled regex), with the pinned pre-fix behaviour refuted by a concrete history, and (2) after any sequence of tag operations the blocker is in the state a fresh build reaches with the final tag set, so all answers coincide. Histories with add_filter, optimise and reload are tied by the correspondence check and a fresh-engine oracle on the real API.',
+        "note": 'Trusted: Lean kernel; the model of RegexManager and Blocker mutators is validated against the real code by histories and RegexManager sequences on every run; the real allocator and clock are abstracted (any non-live address, explicit clock readings).',
+        "technique": 'Lean 4 invariant proof over operation sequences (induction on the history) + refinement to the cache-free state machine + correspondence check',
+    },
+    "C07": {
+        "level": "Lean 4 proofs that use/enable/disable are set assignment/union/difference for every history (fold over the operation list), that tag_exists reports membership, that reload keeps the caller's set, and that in each taggable category a tagged rule is among the hits iff it matches and its tag is enabled; the engine-level lookup is C01's theorem. Correspondence on tag histories incl. reload against the real engine.",
+        "note": "Trusted: Lean kernel; model faithfulness validated by the correspondence run; redirect+tag / generichide+tag mirror the code (inert) and are outside the property's category list.",
+        "technique": 'Lean 4 theorems (induction over the operation history; set algebra) + correspondence check',
+    },
 }
